@@ -47,3 +47,25 @@ def global_shape(s: int, k: int, complex_=True):
     if re == 0 and im == 0:
         re = 4
     return complex(re, im)
+
+# ---- Ident.tla: catalogue of modes ------------------------------------------------------
+# frequencies [Hz] at fs = 100 Hz (all below 0.45 fs), damping 0.2 % .. 8 %, shapes over 8 global sensors
+IDENT_FS = 100.0
+MODE_F = [2.0, 5.5, 9.25, 13.0, 17.75, 22.5, 27.0, 31.5, 36.0, 41.0]
+MODE_XI = [0.002, 0.01, 0.03, 0.005, 0.08, 0.02, 0.004, 0.05, 0.015, 0.06]
+# shape of mode k (1-based) at sensor s (1-based); zeros are exact (they drive the Observable precondition)
+MODE_COMPLEX = {3, 5, 6, 8, 10}
+
+
+def mode_shape(k: int, s: int) -> complex:
+    if (k + 2 * s) % 7 == 0:
+        return 0j
+    re = (((3 * k + 5 * s) % 13) - 6) / 4.0
+    if re == 0:
+        re = 1.25
+    im = ((((2 * k + 3 * s) % 9) - 4) / 5.0) if k in MODE_COMPLEX else 0.0
+    return complex(re, im)
+
+
+def mode_zero_at(k: int, nsens: int = 8):
+    return {s for s in range(1, nsens + 1) if mode_shape(k, s) == 0}
